@@ -322,9 +322,78 @@ theorem count_foldsEids_two {fs : List Fold} {f g : Fold} {x : Eid} (hf : f ∈ 
     · have := ih hf' hg'
       nomega
 
+theorem sameFieldRef_iff {a b : FieldRef} : sameFieldRef a b = true ↔ a = b := by
+  cases a <;> cases b <;> simp [sameFieldRef, and_assoc]
+
+theorem pushImport_eq (slot : List FieldRef) (r : FieldRef) [Decidable (r ∈ slot)] :
+    pushImport slot r = if r ∈ slot then slot else slot ++ [r] := by
+  have : slot.any (sameFieldRef r) = true ↔ r ∈ slot := by
+    simp only [List.any_eq_true, sameFieldRef_iff]
+    constructor
+    · rintro ⟨x, hx, rfl⟩; exact hx
+    · intro h; exact ⟨r, h, rfl⟩
+  unfold pushImport
+  by_cases h : r ∈ slot
+  · rw [if_pos (this.mpr h), if_pos h]
+  · rw [if_neg (fun hc => h (this.mp hc)), if_neg h]
+
+theorem mem_foldl_pushImport {l acc : List FieldRef} {r : FieldRef} :
+    r ∈ l.foldl pushImport acc ↔ r ∈ acc ∨ r ∈ l := by
+  classical
+  induction l generalizing acc with
+  | nil => simp
+  | cons x xs ih =>
+    rw [List.foldl_cons, ih, pushImport_eq]
+    by_cases hx : x ∈ acc
+    · rw [if_pos hx]
+      constructor
+      · rintro (h | h)
+        · exact .inl h
+        · exact .inr (List.mem_cons_of_mem _ h)
+      · rintro (h | h)
+        · exact .inl h
+        · rcases List.mem_cons.mp h with rfl | h
+          · exact .inl hx
+          · exact .inr h
+    · rw [if_neg hx]
+      simp only [List.mem_append, List.mem_cons, List.not_mem_nil, or_false]
+      constructor
+      · rintro ((h | h) | h)
+        · exact .inl h
+        · exact .inr (.inl h)
+        · exact .inr (.inr h)
+      · rintro (h | h | h)
+        · exact .inl (.inl h)
+        · exact .inl (.inr h)
+        · exact .inr h
+
+theorem nodup_foldl_pushImport {l acc : List FieldRef} (h : acc.Nodup) :
+    (l.foldl pushImport acc).Nodup := by
+  classical
+  induction l generalizing acc with
+  | nil => exact h
+  | cons x xs ih =>
+    rw [List.foldl_cons]
+    apply ih
+    rw [pushImport_eq]
+    by_cases hx : x ∈ acc
+    · rw [if_pos hx]; exact h
+    · rw [if_neg hx]
+      rw [List.nodup_append]
+      refine ⟨h, by simp, ?_⟩
+      intro a ha b hb
+      simp only [List.mem_singleton] at hb
+      subst hb
+      rintro rfl
+      exact hx ha
+
+/-- the imported tags of a fold are pairwise distinct (fix of F-10) -/
+theorem nodup_importsAt (k : Nat) (evs : List ImportEvent) : (importsAt k evs).Nodup :=
+  nodup_foldl_pushImport List.nodup_nil
+
 theorem mem_importsAt {k : Nat} {evs : List ImportEvent} {r : FieldRef} :
     r ∈ importsAt k evs ↔ (k, r) ∈ evs := by
-  simp only [importsAt, List.mem_filterMap]
+  simp only [importsAt, mem_foldl_pushImport, List.not_mem_nil, false_or, List.mem_filterMap]
   constructor
   · rintro ⟨⟨i, r'⟩, hm, h⟩
     simp only at h
@@ -1097,5 +1166,61 @@ theorem toIR_tags_imports {S : SchemaView} {q : Query} {ir : IRQuery} (h : toIR 
   simp only [List.length_singleton] at this h1
   omega
 
+
+/-! ### clause 6, second half: a fold imports every tag once (repair of F-10) -/
+
+theorem refsDistinct_iff {l : List FieldRef} : refsDistinct l = true ↔ l.Nodup := by
+  induction l with
+  | nil => simp [refsDistinct]
+  | cons r rest ih =>
+    simp only [refsDistinct, Bool.and_eq_true, Bool.not_eq_true', List.nodup_cons, ih]
+    constructor
+    · rintro ⟨h1, h2⟩
+      refine ⟨fun hm => ?_, h2⟩
+      rw [← refMem_iff, h1] at hm; simp at hm
+    · rintro ⟨h1, h2⟩
+      refine ⟨?_, h2⟩
+      rw [Bool.eq_false_iff]
+      intro hm
+      exact h1 (refMem_iff.mp hm)
+
+theorem wfImportsDistinctF_append (a b : List Fold) :
+    wfImportsDistinctF (a ++ b) = (wfImportsDistinctF a && wfImportsDistinctF b) := by
+  induction a with
+  | nil => simp [wfImportsDistinctF]
+  | cons f fs ih => cases f; simp [wfImportsDistinctF, ih, Bool.and_assoc]
+
+theorem imports_distinct (S : SchemaView) :
+    (∀ path vid pre node st acc st', fillNode S path vid pre node st = .ok (acc, st') →
+      wfImportsDistinctF acc.folds = true) ∧
+    (∀ path vid ty fields st acc st', fillFields S path vid ty fields st = .ok (acc, st') →
+      wfImportsDistinctF acc.folds = true) := by
+  apply fill_induct S
+    (P1 := fun _ _ _ _ _ acc _ => wfImportsDistinctF acc.folds = true)
+    (P2 := fun _ _ _ _ _ acc _ => wfImportsDistinctF acc.folds = true)
+  · intro path vid pre coerceTo fields st post acc1 st' _ _ ih
+    simpa [wfImportsDistinctF_append, wfImportsDistinctF] using ih
+  · intro path vid ty st
+    rfl
+  · intro path vid ty n dirs rest st pty st1 acc1 st' _ _ _ ih
+    simpa [wfImportsDistinctF_append, wfImportsDistinctF] using ih
+  · intro path vid ty n params fds child rest st ed ps accIn st2 comp evs st3 post evPost st4 st5
+      accR st' _ _ _ h4 _ _ _ ihC ihR
+    obtain ⟨vs, ev, _, rfl, _⟩ := finishComponent_inv h4
+    simp only [Acc.append_folds, wfImportsDistinctF_append, Bool.and_eq_true]
+    refine ⟨?_, ihR⟩
+    simp only [mkFold, wfImportsDistinctF, wfImportsDistinctC, Bool.and_eq_true, and_true]
+    exact ⟨refsDistinct_iff.mpr (nodup_importsAt _ _), ihC⟩
+  · intro path vid ty n params kind child rest st ed ps r accC st2 accR st' _ _ _ _ _ _ ihC ihR
+    simp only [Acc.append_folds, wfImportsDistinctF_append, Bool.and_eq_true]
+    exact ⟨⟨rfl, ihC⟩, ihR⟩
+
+/-- every fold of a compiled query, at every depth, imports pairwise distinct tags -/
+theorem toIR_imports_distinct {S : SchemaView} {q : Query} {ir : IRQuery} (h : toIR S q = .ok ir) :
+    wfImportsDistinctC ir.rootComponent = true := by
+  obtain ⟨root, rootParams, acc, st1, comp, evs, st2, vars, _, _, h3, h4, _, _, _, rfl⟩ := toIR_inv h
+  obtain ⟨vs, ev, _, rfl, _⟩ := finishComponent_inv h4
+  simp only [wfImportsDistinctC]
+  exact (imports_distinct S).1 _ _ _ _ _ _ _ h3
 
 end TF.Frontend
